@@ -10,7 +10,7 @@ import (
 
 func init() { Checks["C11"] = CheckC11 }
 
-var c11Points = []string{"before-HS", "after-HS", "after-TC", "after-TA", "after-CC-idle", "client-data-in-flight", "host-data-in-flight", "both-in-flight"}
+var c11Points = []string{"before-HS", "after-HS", "after-TC", "after-TA", "after-CC-idle", "client-data-in-flight", "host-data-in-flight", "both-in-flight", "host-data-client-stalled"}
 var c11EndWS = []string{"close-channel", "out-of-order", "unframeable", "fin-ws", "rst-ws"}
 var c11EndLegacy = []string{"close-channel", "out-of-order", "unframeable", "fin-in", "rst-in", "fin-out", "rst-out"}
 
@@ -28,7 +28,7 @@ type c11Baseline struct {
 
 func CheckC11(l *Lab, verifDir string) int {
 	rep := NewReport("C11", l.Tier, l.Seed, "fault_enumeration", verifDir)
-	rep.Rule = "complete enumeration of cells {point of the exchange: before handshake, after each of the four steps, client data / host data / both in flight} x {way of ending: CLOSE_CHANNEL, out-of-order packet, unframeable bytes, FIN / RST of the websocket, FIN / RST of legacy IN, FIN / RST of legacy OUT} x transport (96 cells), each cell run R times (quick 6, thorough 40) with PRNG pacing and delay points against the race-instrumented real binary. Oracle per tunnel (bounded progress, W=15s): the host connection reaches EOF/RST, every client-facing connection reaches EOF/RST; per cell at quiescence: registry add/del events balance and size is back, no goroutine with a frame in the gateway's protocol/transport packages remains, connection gauges are back at the baseline. non-trivial = the ending was delivered to a live tunnel; distinct = cell x repetition outcome"
+	rep.Rule = "complete enumeration of cells {point of the exchange: before handshake, after each of the four steps, client data / host data / both in flight} x {way of ending: CLOSE_CHANNEL, out-of-order packet, unframeable bytes, FIN / RST of the websocket, FIN / RST of legacy IN, FIN / RST of legacy OUT} x transport (108 cells; the ninth point is a client that stopped reading while the host keeps sending, so that the relay's write is blocked when the tunnel ends), plus a legacy stress in which the OUT connection is dropped at PRNG offsets around the arrival of the IN request, each cell run R times (quick 6, thorough 40) with PRNG pacing and delay points against the race-instrumented real binary. Oracle per tunnel (bounded progress, W=15s): the host connection reaches EOF/RST, every client-facing connection reaches EOF/RST; per cell at quiescence: registry add/del events balance and size is back, no goroutine with a frame in the gateway's protocol/transport packages remains, connection gauges are back at the baseline. non-trivial = the ending was delivered to a live tunnel; distinct = cell x repetition outcome"
 	rep.SetExhaustive(true)
 	rep.Assume("backends never hang up first; a fired watchdog (15 s, >= 1000x the release time of a correct implementation) is a violation only when the gateway process is alive and answering")
 	var cells []c11Cell
@@ -48,7 +48,7 @@ func CheckC11(l *Lab, verifDir string) int {
 	rnd := NewRand(l.Seed, "c11")
 	for _, kind := range kinds {
 		m, err := l.NewMultiFixture(MultiOpts{Kind: kind, N: 4, Race: true,
-			Points: "registry=30:300,tunnel.write=10:200,forward.beforeWrite=10:200,process.afterRead=10:200,legacy.attach=20:300"})
+			Points: "registry=30:300,tunnel.write=10:200,forward.beforeWrite=10:200,process.afterRead=10:200,legacy.attach=20:300,legacy.in.attach=40:400"})
 		if err != nil {
 			rep.Inconclusive("fixture: " + err.Error())
 			continue
@@ -132,6 +132,7 @@ func CheckC11(l *Lab, verifDir string) int {
 				rep.Sample(map[string]any{"cell": cell, "config": kind, "result": results[0]})
 			}
 		}
+		c11OutDropDuringAttach(l, rep, m, &base, rnd.Int63())
 		finishGatewayMonitors(rep, m.GW, "C11")
 		m.Close()
 	}
@@ -199,6 +200,7 @@ func c11Run(m *MultiFixture, cell c11Cell, seed int64) *c11Result {
 	if upto > 4 {
 		upto = 4
 	}
+	evFrom := m.GW.EventCount()
 	t, bc, connID, err := m.Stage(env, u, upto)
 	res.ConnID = connID
 	if err != nil {
@@ -232,6 +234,22 @@ func c11Run(m *MultiFixture, cell c11Cell, seed int64) *c11Result {
 			}
 		}()
 	}
+	if cell.Point == 8 {
+		// the client stops reading; the host floods until the whole path is full
+		t.PauseReading()
+		g := NewGen(uint64(seed) + 1)
+		chunk := g.Bytes(64 * 1024)
+		total := 0
+		for total < 256<<20 {
+			bc.C.SetWriteDeadline(time.Now().Add(300 * time.Millisecond))
+			n, err := bc.C.Write(chunk)
+			total += n
+			if err != nil {
+				break
+			}
+		}
+		bc.C.SetWriteDeadline(time.Time{})
+	}
 	if cell.Point == 6 || cell.Point == 7 {
 		flows.Add(1)
 		go func() {
@@ -252,7 +270,7 @@ func c11Run(m *MultiFixture, cell c11Cell, seed int64) *c11Result {
 			}
 		}()
 	}
-	if cell.Point >= 5 {
+	if cell.Point >= 5 && cell.Point != 8 {
 		if cell.Point == 5 {
 			bc.WaitBytes(2000, env.W)
 		} else {
@@ -292,6 +310,22 @@ func c11Run(m *MultiFixture, cell c11Cell, seed int64) *c11Result {
 	case "rst-out":
 		t.CloseOut(true)
 	}
+	if cell.Point == 8 {
+		// while the client stays stalled the gateway must already let go of the host
+		if cell.Ending != "close-channel" && cell.Ending != "out-of-order" {
+			// (a response the packet loop owes is queued behind the blocked relay write: those
+			// two endings can only complete once the client reads again)
+			if !bc.WaitEnd(env.W) {
+				res.problem("backend-not-closed-while-client-stalled", "client stopped reading, tunnel ended by %s: the connection to the remote desktop host was still open after %v", cell.Ending, env.W)
+			}
+			// ... and finish serving the tunnel: the handler.end hook event is the last thing a
+			// handler does (after closing the transport, registry removal and gauge decrement)
+			if _, _, ok := m.GW.WaitEvent(evFrom, env.W, func(ev GWEvent) bool { return ev.Kind == "handler.end" && ev.RDGID == res.ConnID }); !ok {
+				res.problem("handler-not-finished-while-client-stalled", "client stopped reading, tunnel ended by %s: the connection handler had not finished %v later (client-facing connection, goroutines and gauge are still held)", cell.Ending, env.W)
+			}
+		}
+		t.ResumeReading()
+	}
 	ended := t.WaitEnd(env.W, true)
 	close(stopFlow)
 	snap := t.Snapshot()
@@ -323,4 +357,91 @@ func endClass(s string) string {
 		return "err"
 	}
 	return s
+}
+
+// c11OutDropDuringAttach: legacy OUT is established, then the IN request and
+// the drop of OUT race each other at PRNG offsets. Whatever the order, nothing
+// of the tunnel may stay behind.
+func c11OutDropDuringAttach(l *Lab, rep *Report, m *MultiFixture, base *c11Baseline, seed int64) {
+	rnd := rand.New(rand.NewSource(seed))
+	n := l.Pick(400, 3000)
+	var wg sync.WaitGroup
+	sem := make(chan struct{}, 8)
+	for i := 0; i < n; i++ {
+		wg.Add(1)
+		sem <- struct{}{}
+		first := rnd.Intn(3) % 2 // two thirds: IN request first
+		// the IN request passes the authentication middleware (a backend call) before it
+		// reaches the handler: the offsets have to span that time
+		delay := time.Duration(rnd.Intn(25000)) * time.Microsecond
+		if first == 1 {
+			delay = time.Duration(rnd.Intn(3000)) * time.Microsecond
+		}
+		u := m.Users[rnd.Intn(len(m.Users))]
+		go func(i int) {
+			defer wg.Done()
+			defer func() { <-sem }()
+			id := NewConnID("race")
+			out, err := DialH(m.GW.Addr, DialOpts{})
+			if err != nil {
+				return
+			}
+			hdr := append(Hdr{{"Rdg-Connection-Id", id}}, u.Headers...)
+			r, err := out.Do("RDG_OUT_DATA", GatewayPath, hdr, nil, 5*time.Second)
+			if err != nil || r.Status != 200 {
+				out.Close()
+				return
+			}
+			in, err := DialH(m.GW.Addr, DialOpts{})
+			if err != nil {
+				out.Close()
+				return
+			}
+			defer in.Close()
+			req := BuildRequest("RDG_IN_DATA", GatewayPath, append(Hdr{{"Rdg-Connection-Id", id}, {"Transfer-Encoding", "chunked"}}, u.Headers...), nil)
+			if first == 0 {
+				in.C.Write(req)
+				time.Sleep(delay)
+				ResetConn(out.C)
+			} else {
+				ResetConn(out.C)
+				time.Sleep(delay)
+				in.C.Write(req)
+			}
+			// the IN request is either refused at HTTP level (an ordinary keep-alive connection
+			// remains, no tunnel exists) or accepted: then the tunnel has lost its OUT channel
+			// and the gateway must close the IN connection
+			in.C.Write([]byte("0\r\n\r\n"))
+			in.C.SetReadDeadline(time.Now().Add(15 * time.Second))
+			resp, err := in.ReadResp("RDG_IN_DATA")
+			if err != nil {
+				if ne, ok := err.(interface{ Timeout() bool }); ok && ne.Timeout() {
+					rep.Violate("C11/legacy-in-not-answered/legacy/out-dropped-during-attach", "the OUT connection was reset around the arrival of the IN request: the IN request was neither answered nor closed within 15 s", map[string]any{"iteration": i, "in_first": first == 0, "offset_us": delay.Microseconds()})
+				}
+				rep.Eval(HashStr("out-drop-race", i, "closed"))
+				return
+			}
+			if resp.Status != 200 {
+				rep.Count(fmt.Sprintf("out_drop_race/in-refused-%d", resp.Status), 1)
+				rep.Eval(HashStr("out-drop-race", i, resp.Status))
+				return
+			}
+			rep.Count("out_drop_race/in-accepted", 1)
+			buf := make([]byte, 4096)
+			for {
+				if _, err := in.BR.Read(buf); err != nil {
+					if ne, ok := err.(interface{ Timeout() bool }); ok && ne.Timeout() {
+						rep.Violate("C11/legacy-in-not-closed/legacy/out-dropped-during-attach", "the OUT connection was reset around the arrival of the IN request, the IN channel was accepted: the IN connection was still open 15 s later", map[string]any{"iteration": i, "in_first": first == 0, "offset_us": delay.Microseconds()})
+					}
+					break
+				}
+			}
+			rep.Eval(HashStr("out-drop-race", i))
+		}(i)
+	}
+	wg.Wait()
+	rep.Count("out_drop_during_attach_iterations", n)
+	if _, err := c11Quiesce(m, base, 15*time.Second); err != nil && m.GW.Alive() {
+		rep.Violate("C11/not-quiescent/legacy/out-dropped-during-attach", err.Error(), nil)
+	}
 }
